@@ -3,9 +3,19 @@
 Addresses of CFGNode/Binding/Variable/State objects differ from run to run.
 (a) every ordered container keyed by such pointers must order them by id
     (`pointer_less<T>`), never by address (std::less on raw pointers);
-(b) every range-for over an *unordered* container keyed by such pointers must
-    be order-insensitive (its body only fills id-ordered sets, or looks for
-    any/none and breaks) - triaged sites are frozen by function and container.
+(b) every iteration over an *unordered* container keyed by such pointers -
+    a range-for, a std algorithm (any_of / all_of / none_of / count_if /
+    find_if) given its begin(), a range insert, or any other begin() - must be
+    order-insensitive.  This is decided from the effects of what runs per
+    element, wherever the loop sits (a loop moved into a helper function is
+    the same site): inserts into an id-ordered std::set/map and stores of a
+    constant into a flag are order-free, provided the body does not read what
+    it accumulates and does not combine an accumulation with an early exit;
+    calls are followed and must be free of effects (no field write, no
+    non-const reference/pointer parameter, transitively); a predicate handed to
+    a short-circuiting algorithm must have no effect at all, and find_if's
+    result may only be compared with end().  Whatever is left over must be a
+    triaged combination keyed by (container, residual effects).
 Listed exception (a hazard, not a finding): `Origin::source_sets` is
 `std::set<SourceSet>`: the outer set compares SourceSets lexicographically
 with SourceSet's own id comparator, so it is id-ordered as well.
@@ -14,6 +24,7 @@ import re
 
 from sa.core import rule, AnalysisError
 from sa import cxx
+from rules._util_c09c04 import walk_sem, lambda_bodies
 
 GRAPH = ("CFGNode", "Binding", "Variable", "State", "Origin", "Program")
 DECL_KINDS = ("FieldDecl", "VarDecl", "ParmVarDecl", "TypedefDecl", "TypeAliasDecl")
@@ -100,29 +111,380 @@ def r4_7a(ctx):
                     "changes from run to run", {"type": ty[:160]})
 
 
-# range-for loops over unordered containers keyed by graph pointers, triaged by reading
-_UNORDERED_LOOPS_OK = {
-    ("Solver::FindSolution", "unique_finish_nodes"):
-        "body only inserts into new_positions, a CFGNodeSet ordered by id",
-    ("Variable::nodes", "cfg_node_to_bindings_"):
-        "body only inserts the keys into a CFGNodeSet ordered by id",
-    ("Variable::Prune", "cfg_node_to_bindings_"):
-        "existence test: sets a flag and breaks",
+# -- R4.7b: iteration over unordered containers keyed by graph pointers -------------
+#
+# A site is decided automatically from the effects of what is executed per
+# element; only effects that are not provably order-free need a triage entry,
+# and the entry is keyed by the container and those effects - not by the name
+# of the function the loop happens to sit in.
+
+ARITH = {"bool", "int", "unsigned int", "long", "unsigned long", "std::size_t",
+         "size_t", "char", "short", "long long", "unsigned long long", "float",
+         "double"}
+# algorithms whose *result* does not depend on the visiting order when the
+# predicate has no effect of its own (they may stop early, so a predicate with
+# any effect makes the set of effects performed order-dependent)
+ALGO_PREDICATE = {"any_of", "all_of", "none_of", "count_if", "find_if",
+                  "find_if_not"}
+ALGO_ELEMENT_RESULT = {"find_if", "find_if_not"}   # returns a position
+IMPURE_STD = {"swap", "sort", "stable_sort", "iter_swap", "push_heap",
+              "pop_heap", "reverse", "rotate", "shuffle"}
+
+# effects that are not provably order-free, triaged by reading:
+# (container, sorted tuple of residual effects) -> reason
+_TRIAGED_EFFECTS = {
+    ("unique_finish_nodes", ("call:internal::PathFinder::FindNodeBackwards",)):
+        "per finish node one FindNodeBackwards query whose only effect is to "
+        "fill the path cache, keyed by (start, finish, blocked): the answers "
+        "and the final cache content do not depend on the query order; the "
+        "body otherwise only inserts into new_positions, a CFGNodeSet ordered "
+        "by id",
 }
 
 
-@rule("R4.7b", "C04", floor=3)
-def r4_7b(ctx):
-  """Range-for over an unordered pointer-keyed container is order-insensitive."""
-  ix = cxx.get_index(ctx)
-  for fn in sorted(ix.by_key.values(), key=lambda f: f.key):
-    if fn.body is None or fn.file.endswith(("_test.cc", "cfg.cc")):
+def _unordered_graph_container(ty):
+  """Graph class G when `ty` is an unordered container keyed by G*, else None."""
+  if "unordered_" not in ty:
+    return None
+  if re.search(r">::(mapped_type|value_type|key_type)\b", ty):
+    return None     # an element of the container, not the container itself
+  head = ty[:ty.find("unordered_")]
+  if "<" in head:
+    return None     # nested inside another template: not the iterated object
+  args = _split_args(ty[ty.find("unordered_"):])
+  if not args:
+    return None
+  return _ptr_to_graph(args[0])
+
+
+def _id_ordered_set(ty):
+  """`ty` is a std::set/std::map that orders its keys by value or by id."""
+  cs = _ordered_containers(ty)
+  if not cs or not re.match(r"\s*(const\s+)?std::(set|map|multiset|multimap)<", ty):
+    return False
+  kind, key, comp = cs[0]
+  if "*" in key:
+    return comp is not None and "pointer_less<" in comp
+  return True
+
+
+def _name_of(e):
+  e = cxx.strip(e)
+  if e is None:
+    return None
+  if e.get("kind") == "MemberExpr":
+    return e.get("name")
+  if e.get("kind") == "DeclRefExpr":
+    return (e.get("referencedDecl") or {}).get("name")
+  return None
+
+
+def _lvalue_root(ix, e):
+  """(root, indirect): root = ("var", id, name, type) | ("field", name) |
+  ("this",) | None; indirect = the location is reached through a pointer,
+  iterator or smart pointer (so it is not storage of the root itself)."""
+  ind = False
+  for _ in range(60):
+    e = cxx.strip(e)
+    if e is None:
+      return None, ind
+    k = e.get("kind")
+    kids = cxx.inner(e)
+    if k == "MemberExpr":
+      base = kids[0] if kids else None
+      sb = cxx.strip(base) if base is not None else None
+      if sb is None or sb.get("kind") == "CXXThisExpr":
+        return ("field", e.get("name")), ind
+      if e.get("isArrow"):
+        ind = True
+      e = base
       continue
-    for lp in cxx.walk(fn.body):
-      if lp.get("kind") != "CXXForRangeStmt":
+    if k == "ArraySubscriptExpr":
+      if _types(cxx.strip(kids[0]) or {}) and "*" in _types(cxx.strip(kids[0]))[0]:
+        ind = True
+      e = kids[0]
+      continue
+    if k == "UnaryOperator" and e.get("opcode") in ("*", "&"):
+      if e.get("opcode") == "*":
+        ind = True
+      e = kids[0]
+      continue
+    if k == "CXXOperatorCallExpr":
+      nm = ix.callee(e)[2]
+      if nm in ("operator*", "operator->") and len(kids) > 1:
+        ind = True
+        e = kids[1]
         continue
+      if nm == "operator[]" and len(kids) > 1:
+        e = kids[1]
+        continue
+      return None, ind
+    if k == "CXXMemberCallExpr":
+      key, f, nm, obj = ix.callee(e)
+      if f is None and nm in cxx.VIEWS and obj is not None:
+        if nm not in ("at", "back", "front", "value", "top"):
+          ind = True
+        m = cxx.strip(kids[0])
+        if m is not None and m.get("isArrow"):
+          ind = True
+        e = obj
+        continue
+      return None, ind
+    if k == "DeclRefExpr":
+      rd = e.get("referencedDecl") or {}
+      ty = (rd.get("type") or {}).get("qualType", "")
+      return ("var", rd.get("id"), rd.get("name"), ty), ind
+    if k == "CXXThisExpr":
+      return ("this",), ind
+    return None, ind
+  return None, ind
+
+
+class _Purity:
+  """`fn has no effect outside its own locals` (never guesses yes)."""
+
+  def __init__(self, ix):
+    self.ix = ix
+    self.memo = {}
+
+  def pure(self, fn, depth=0):
+    if fn.key in self.memo:
+      return self.memo[fn.key]
+    if fn.body is None or depth > 4:
+      return False
+    self.memo[fn.key] = False      # recursion: not pure until shown
+    ok = True
+    for p in fn.params:
+      ty = max(_types(p), key=len) if _types(p) else ""
+      if ("&" in ty or "*" in ty) and not ty.lstrip().startswith("const "):
+        ok = False
+    if ok:
+      for n in cxx.walk(fn.body):
+        if n.get("kind") == "LambdaExpr":
+          ok = False
+          break
+      for ev in cxx.events(self.ix, fn.body, {}) if ok else ():
+        if ev.kind in ("write", "addr"):
+          ok = False
+          break
+        if ev.kind == "call":
+          if ev.fn is not None:
+            if not self.pure(ev.fn, depth + 1):
+              ok = False
+              break
+          elif (ev.extra or {}).get("name") in IMPURE_STD:
+            ok = False
+            break
+    self.memo[fn.key] = ok
+    return ok
+
+
+def _const_literal(e):
+  e = cxx.strip(e)
+  return e is not None and e.get("kind") in (
+      "CXXBoolLiteralExpr", "IntegerLiteral", "CXXNullPtrLiteralExpr",
+      "FloatingLiteral", "CharacterLiteral")
+
+
+def _body_effects(ix, purity, roots, is_predicate):
+  """Effects of executing `roots` (statements) once per element.
+
+  -> (free, residual, exits): free = order-free effects (commutative inserts
+  into id-ordered sets, idempotent constant flags), residual = every other
+  effect, exits = early exits of the iteration (break / return)."""
+  local_ids = set()
+  for r in roots:
+    for n in walk_sem(r):
+      if n.get("kind") in ("VarDecl", "ParmVarDecl", "BindingDecl", "DecompositionDecl"):
+        local_ids.add(n.get("id"))
+  free, residual, exits = [], [], []
+  written = {}          # decl id / field name -> effect nodes that use it
+
+  def is_local(root, ind):
+    if root is None or ind:
+      return False
+    if root[0] != "var" or root[1] not in local_ids:
+      return False
+    ty = root[3] or ""
+    return not ty.rstrip().endswith("&")
+
+  def rname(root):
+    if root is None:
+      return "?"
+    return root[2] if root[0] == "var" else (root[1] if root[0] == "field" else "this")
+
+  def note_written(root, user):
+    if root is not None and root[0] in ("var", "field"):
+      written.setdefault((root[0], root[1]), []).append(user)
+
+  def scan(n, nested_loop, in_lambda):
+    if not n:
+      return
+    k = n.get("kind")
+    kids = cxx.inner(n)
+    if k == "LambdaExpr":
+      for _, b in lambda_bodies(n):
+        scan(b, True, True)
+      return
+    if k in ("ForStmt", "WhileStmt", "DoStmt", "CXXForRangeStmt", "SwitchStmt"):
+      for c in kids:
+        scan(c, True, in_lambda)
+      return
+    if k == "ReturnStmt":
+      if not in_lambda:
+        if kids and not _const_literal(kids[0]):
+          residual.append("return-value")
+        else:
+          exits.append("return")
+      elif is_predicate and not nested_loop:
+        pass       # the predicate's result
+      for c in kids:
+        scan(c, nested_loop, in_lambda)
+      return
+    if k == "BreakStmt":
+      if not nested_loop:
+        exits.append("break")
+      return
+    if k == "GotoStmt":
+      residual.append("goto")
+      return
+    if k == "CXXDeleteExpr":
+      residual.append("delete")
+    if k in ("BinaryOperator", "CompoundAssignOperator") and \
+        n.get("opcode", "").endswith("=") and n.get("opcode") not in ("==", "!=", "<=", ">="):
+      root, ind = _lvalue_root(ix, kids[0])
+      if not is_local(root, ind):
+        ty = canon = (root[3] if root and root[0] == "var" else "") or ""
+        plain = root is not None and root[0] == "var" and not ind and \
+            ty.replace("const ", "").strip() in ARITH
+        if n.get("opcode") == "=" and plain and _const_literal(kids[1]):
+          free.append(f"flag:{rname(root)}")
+          note_written(root, kids[0])
+        else:
+          residual.append(f"write:{rname(root)}")
+    elif k == "UnaryOperator" and n.get("opcode") in ("++", "--"):
+      root, ind = _lvalue_root(ix, kids[0])
+      if not is_local(root, ind):
+        residual.append(f"write:{rname(root)}")
+    elif k == "CXXMemberCallExpr":
+      key, f, nm, obj = ix.callee(n)
+      if f is not None:
+        if not purity.pure(f):
+          residual.append(f"call:{key.split('(')[0]}")
+      elif nm in cxx.MUTATORS and obj is not None:
+        root, ind = _lvalue_root(ix, obj)
+        m = cxx.strip(kids[0])
+        if m is not None and m.get("isArrow"):
+          ind = True
+        if not is_local(root, ind):
+          tys = _types(cxx.strip(obj) or {})
+          oty = max(tys, key=len) if tys else ""
+          if nm in ("insert", "emplace") and _id_ordered_set(oty) and not ind \
+              and root is not None and root[0] in ("var", "field"):
+            free.append(f"insert:{rname(root)}")
+            note_written(root, obj)
+          else:
+            residual.append(f"mutate:{rname(root)}.{nm}")
+    elif k == "CXXOperatorCallExpr":
+      key, f, nm, obj = ix.callee(n)
+      if f is not None:
+        if not purity.pure(f):
+          residual.append(f"call:{key.split('(')[0]}")
+      elif nm in ("operator=", "operator+=", "operator-=", "operator|=",
+                  "operator&=", "operator++", "operator--") and len(kids) > 1:
+        root, ind = _lvalue_root(ix, kids[1])
+        if not is_local(root, ind):
+          residual.append(f"write:{rname(root)}")
+      elif nm == "operator[]" and len(kids) > 1:
+        tys = _types(cxx.strip(kids[1]) or {})
+        oty = max(tys, key=len) if tys else ""
+        if "map<" in oty and not oty.lstrip().startswith("const "):
+          root, ind = _lvalue_root(ix, kids[1])
+          if not is_local(root, ind):
+            residual.append(f"mutate:{rname(root)}.operator[]")
+    elif k == "CallExpr":
+      key, f, nm, obj = ix.callee(n)
+      if f is not None:
+        if not purity.pure(f):
+          residual.append(f"call:{key.split('(')[0]}")
+      elif nm in IMPURE_STD:
+        residual.append(f"call:std::{nm}")
+      elif key is None:
+        residual.append("call:?")
+    for c in kids:
+      scan(c, nested_loop, in_lambda)
+
+  for r in roots:
+    scan(r, False, is_predicate)
+  # an accumulator that the body also reads makes each step depend on the
+  # steps before it
+  users = {}
+  for r in roots:
+    for n in walk_sem(r):
+      if n.get("kind") == "DeclRefExpr":
+        users.setdefault(("var", (n.get("referencedDecl") or {}).get("id")), []).append(n)
+      elif n.get("kind") == "MemberExpr" and cxx.inner(n) and \
+          (cxx.strip(cxx.inner(n)[0]) or {}).get("kind") == "CXXThisExpr":
+        users.setdefault(("field", n.get("name")), []).append(n)
+  for key, effect_nodes in written.items():
+    eff = {id(cxx.strip(x)) for x in effect_nodes}
+    extra = [u for u in users.get(key, []) if id(u) not in eff]
+    if extra:
+      residual.append(f"reads-own-accumulator:{_name_of(effect_nodes[0])}")
+  return sorted(set(free)), sorted(set(residual)), sorted(set(exits))
+
+
+def _predicate_roots(ix, fn, arg, local_vars):
+  """Bodies executed when the callable `arg` is invoked; None if unknown."""
+  a = cxx.strip(arg)
+  seen = 0
+  while a is not None and a.get("kind") == "CXXConstructExpr" and cxx.inner(a) and seen < 5:
+    a = cxx.strip(cxx.inner(a)[0])
+    seen += 1
+  if a is None:
+    return None
+  if a.get("kind") == "LambdaExpr":
+    return [b for _, b in lambda_bodies(a)]
+  if a.get("kind") == "DeclRefExpr":
+    rd = a.get("referencedDecl") or {}
+    v = local_vars.get(rd.get("id"))
+    if v is not None:
+      kids = [c for c in cxx.inner(v) if c.get("kind")]
+      if kids:
+        return _predicate_roots(ix, fn, kids[-1], {})
+      return None
+    key = ix.canon.get(rd.get("id"))
+    f = ix.by_key.get(key)
+    if f is not None and f.body is not None:
+      return [f.body]
+  return None
+
+
+def _container_name(ix, e):
+  t = cxx.uncast(cxx.term(ix, e)) if e is not None else None
+  if isinstance(t, tuple):
+    if t[0] == "field":
+      return t[1].split("::")[-1]
+    if t[0] == "var":
+      return t[1]
+  return None
+
+
+def _iteration_sites(ix, fn):
+  """(kind, container name, graph class, type, roots, is_predicate, extra, node)."""
+  local_vars = {}
+  parents = {}
+  for n in walk_sem(fn.body):
+    if n.get("kind") == "VarDecl":
+      local_vars[n.get("id")] = n
+    for c in cxx.inner(n):
+      if c:
+        parents[id(c)] = n
+  for n in walk_sem(fn.body):
+    k = n.get("kind")
+    if k == "CXXForRangeStmt":
       rng = None
-      for c in cxx.inner(lp)[:-1]:
+      for c in cxx.inner(n)[:-1]:
         if c.get("kind") == "DeclStmt" and cxx.inner(c) and \
             cxx.inner(c)[0].get("name", "").startswith("__range"):
           rng = cxx.inner(c)[0]
@@ -130,31 +492,102 @@ def r4_7b(ctx):
         continue
       tys = _types(rng)
       ty = max(tys, key=len) if tys else ""
-      if "unordered_" not in ty:
+      g = _unordered_graph_container(ty)
+      if g is None:
         continue
-      if re.search(r">::(mapped_type|value_type|key_type)\b", ty):
-        continue   # an element of the container, not the container itself
-      args = _split_args(ty[ty.find("unordered_"):])
-      if not args or _ptr_to_graph(args[0]) is None:
+      cname = _container_name(ix, cxx.inner(rng)[-1]) if cxx.inner(rng) else None
+      yield ("for", cname, g, ty, [cxx.inner(n)[-1]], False, [], n)
+    elif k == "CXXMemberCallExpr":
+      key, f, nm, obj = ix.callee(n)
+      if f is not None or nm not in ("begin", "cbegin", "rbegin") or obj is None:
         continue
-      src_term = cxx.uncast(cxx.term(ix, cxx.inner(rng)[-1])) if cxx.inner(rng) else None
-      cname = None
-      if isinstance(src_term, tuple):
-        cname = src_term[1].split("::")[-1] if src_term[0] == "field" else \
-            (src_term[1] if src_term[0] == "var" else None)
-      key = (fn.qual, cname)
-      line = ((lp.get("range") or {}).get("begin") or {}).get("line") or fn.line
-      ctx.check(key in _UNORDERED_LOOPS_OK, f"{fn.qual}:for-over:{cname}", fn.file, line,
+      so = cxx.strip(obj) or {}
+      tys = _types(so)
+      ty = max(tys, key=len) if tys else ""
+      g = _unordered_graph_container(ty)
+      if g is None:
+        continue
+      if (so.get("referencedDecl") or {}).get("name", "").startswith("__range"):
+        continue      # the implicit begin() of a range-for (handled above)
+      cname = _container_name(ix, obj)
+      # what consumes the iterator?
+      up = parents.get(id(n))
+      while up is not None and up.get("kind") in cxx.TRANSPARENT + ("CXXConstructExpr",):
+        up = parents.get(id(up))
+      if up is not None and up.get("kind") == "CallExpr":
+        ckey, cf, cnm, _ = ix.callee(up)
+        args = cxx.inner(up)[1:]
+        if cf is None and cnm in ALGO_PREDICATE and len(args) == 3:
+          roots = _predicate_roots(ix, fn, args[2], local_vars)
+          extra = []
+          if roots is None:
+            roots, extra = [], ["predicate-unknown"]
+          if cnm in ALGO_ELEMENT_RESULT:
+            # the position found depends on the order unless it is only
+            # compared with end()
+            pu = parents.get(id(up))
+            while pu is not None and pu.get("kind") in cxx.TRANSPARENT + ("CXXConstructExpr",):
+              pu = parents.get(id(pu))
+            cmp_end = pu is not None and pu.get("kind") == "CXXOperatorCallExpr" and \
+                ix.callee(pu)[2] in ("operator==", "operator!=")
+            if not cmp_end:
+              extra.append("element-result")
+          yield (cnm, cname, g, ty, roots, True, extra, up)
+          continue
+      if up is not None and up.get("kind") == "CXXMemberCallExpr":
+        ckey, cf, cnm, cobj = ix.callee(up)
+        if cf is None and cnm == "insert" and cobj is not None:
+          tys2 = _types(cxx.strip(cobj) or {})
+          oty = max(tys2, key=len) if tys2 else ""
+          if _id_ordered_set(oty):
+            yield ("range-insert", cname, g, ty, [], False, [], up)
+            continue
+      yield ("begin()", cname, g, ty, [], False, ["iterator-walk"], n)
+
+
+@rule("R4.7b", "C04", floor=3)
+def r4_7b(ctx):
+  """Iteration over an unordered pointer-keyed container is order-insensitive."""
+  ix = cxx.get_index(ctx)
+  purity = ctx.memo(("c04-purity",), lambda: _Purity(ix))
+  for fn in sorted(ix.by_key.values(), key=lambda f: f.key):
+    if fn.body is None or fn.file.endswith(("_test.cc", "cfg.cc")):
+      continue
+    for kind, cname, g, ty, roots, is_pred, extra, node in _iteration_sites(ix, fn):
+      free, residual, exits = _body_effects(ix, purity, roots, is_pred)
+      residual = sorted(set(residual) | set(extra))
+      if is_pred and kind != "count_if" and free:
+        # the algorithm may stop early: even an order-free effect is then
+        # performed for an order-dependent subset of the elements
+        residual = sorted(set(residual) | {f"effect-in-short-circuit-predicate:{x}" for x in free})
+      if exits and any(x.startswith("insert:") for x in free):
+        residual = sorted(set(residual) | {"early-exit-after-accumulation"})
+      line = ((node.get("range") or {}).get("begin") or {}).get("line") or fn.line
+      triage = _TRIAGED_EFFECTS.get((cname, tuple(residual)))
+      via = "for-over" if kind == "for" else f"{kind}-over"
+      ctx.check(not residual or triage is not None, f"{fn.qual}:{via}:{cname}", fn.file, line,
                 f"{fn.qual} iterates `{cname}`, an unordered container keyed by "
-                f"{_ptr_to_graph(args[0])}* (hash of an address): the visiting "
-                "order differs from run to run and this loop is not in the "
-                "triaged order-insensitive table",
-                {"container": ty[:120], "reason": _UNORDERED_LOOPS_OK.get(key)})
+                f"{g}* (hash of an address): the visiting "
+                f"order differs from run to run and what is done per element "
+                f"is not provably order-free (effects {residual}; order-free: "
+                f"{free}; exits {exits}) nor a triaged combination",
+                {"container": ty[:120], "via": kind, "order_free_effects": free,
+                 "early_exits": exits, "residual_effects": residual,
+                 "reason": triage or "decided from the effects of the body"})
 
 
 def _tg(n):
   return f"pytype/typegraph/{n}"
 
+
+_PRUNE_FLAG_LOOP = (
+    "    bool any_visible = false;\n"
+    "    for (const auto& kvpair : cfg_node_to_bindings_) {\n"
+    "      if (program_->is_reachable(kvpair.first, viewpoint)) {\n"
+    "        any_visible = true;\n"
+    "        break;\n"
+    "      }\n"
+    "    }\n")
 
 VARIANTS = [
     {"name": "cfgnodeset-default-comparator", "rule": "R4.7a", "file": _tg("typegraph.h"), "expect": "fire",
@@ -163,4 +596,50 @@ VARIANTS = [
     {"name": "new-unordered-walk-into-vector", "rule": "R4.7b", "file": _tg("typegraph.cc"), "expect": "fire",
      "old": "  std::vector<DataType*> data;\n  data.reserve(bindings_.size());\n  for (const auto& a : bindings_) {\n    data.push_back(a->data().get());\n  }\n  return data;",
      "new": "  std::vector<DataType*> data;\n  data.reserve(bindings_.size());\n  for (const auto& kv : cfg_node_to_bindings_) {\n    for (auto* b : kv.second) data.push_back(b->data().get());\n  }\n  return data;"},
+    {"name": "twin-benign-C09-r2-prune-any_of", "rule": "R4.7b", "patch": "benign/C09-r2/patch.diff", "expect": "silent"},
+    {"name": "twin-benign-C07-r3-loop-moved-into-helper", "rule": "R4.7b", "patch": "benign/C07-r3/patch.diff", "expect": "silent"},
+    {"name": "twin-prune-existence-test-as-any_of", "rule": "R4.7b", "expect": "silent",
+     "edits": [(_tg("typegraph.cc"), "#include <cstddef>\n", "#include <algorithm>\n#include <cstddef>\n"),
+               (_tg("typegraph.cc"), _PRUNE_FLAG_LOOP,
+                "    const bool any_visible = std::any_of(\n"
+                "        cfg_node_to_bindings_.begin(), cfg_node_to_bindings_.end(),\n"
+                "        [this, viewpoint](const auto& kvpair) {\n"
+                "          return program_->is_reachable(kvpair.first, viewpoint);\n"
+                "        });\n")]},
+    {"name": "any_of-predicate-with-effect", "rule": "R4.7b", "expect": "fire",
+     "edits": [(_tg("typegraph.cc"), "#include <cstddef>\n", "#include <algorithm>\n#include <cstddef>\n"),
+               (_tg("typegraph.cc"), _PRUNE_FLAG_LOOP,
+                "    const bool any_visible = std::any_of(\n"
+                "        cfg_node_to_bindings_.begin(), cfg_node_to_bindings_.end(),\n"
+                "        [this, viewpoint, &result](const auto& kvpair) {\n"
+                "          result.push_back(*kvpair.second.begin());\n"
+                "          return program_->is_reachable(kvpair.first, viewpoint);\n"
+                "        });\n")]},
+    {"name": "find_if-element-used", "rule": "R4.7b", "expect": "fire",
+     "edits": [(_tg("typegraph.cc"), "#include <cstddef>\n", "#include <algorithm>\n#include <cstddef>\n"),
+               (_tg("typegraph.cc"), _PRUNE_FLAG_LOOP,
+                "    auto hit = std::find_if(\n"
+                "        cfg_node_to_bindings_.begin(), cfg_node_to_bindings_.end(),\n"
+                "        [this, viewpoint](const auto& kvpair) {\n"
+                "          return program_->is_reachable(kvpair.first, viewpoint);\n"
+                "        });\n"
+                "    const bool any_visible = hit != cfg_node_to_bindings_.end();\n"
+                "    if (any_visible) result.push_back(*hit->second.begin());\n")]},
+    {"name": "twin-find_if-compared-with-end", "rule": "R4.7b", "expect": "silent",
+     "edits": [(_tg("typegraph.cc"), "#include <cstddef>\n", "#include <algorithm>\n#include <cstddef>\n"),
+               (_tg("typegraph.cc"), _PRUNE_FLAG_LOOP,
+                "    const bool any_visible = std::find_if(\n"
+                "        cfg_node_to_bindings_.begin(), cfg_node_to_bindings_.end(),\n"
+                "        [this, viewpoint](const auto& kvpair) {\n"
+                "          return program_->is_reachable(kvpair.first, viewpoint);\n"
+                "        }) != cfg_node_to_bindings_.end();\n")]},
+    {"name": "existence-loop-remembers-the-element", "rule": "R4.7b", "file": _tg("typegraph.cc"), "expect": "fire",
+     "old": _PRUNE_FLAG_LOOP,
+     "new": _PRUNE_FLAG_LOOP.replace("    bool any_visible = false;\n", "    bool any_visible = false;\n    const CFGNode* first_visible = nullptr;\n")
+                            .replace("        any_visible = true;\n", "        any_visible = true;\n        first_visible = kvpair.first;\n")},
+    {"name": "accumulating-loop-stops-early", "rule": "R4.7b", "file": _tg("solver.cc"), "expect": "fire",
+     "old": "        new_positions.insert(where);\n", "new": "        new_positions.insert(where);\n        if (new_positions.size() >= 2) break;\n"},
+    {"name": "explicit-iterator-walk", "rule": "R4.7b", "file": _tg("typegraph.cc"), "expect": "fire",
+     "old": "  std::vector<DataType*> data;\n  data.reserve(bindings_.size());\n  for (const auto& a : bindings_) {\n    data.push_back(a->data().get());\n  }\n  return data;",
+     "new": "  std::vector<DataType*> data;\n  data.reserve(bindings_.size());\n  for (auto it = cfg_node_to_bindings_.begin(); it != cfg_node_to_bindings_.end(); ++it) {\n    for (auto* b : it->second) data.push_back(b->data().get());\n  }\n  return data;"},
 ]
